@@ -5,6 +5,10 @@ ROOT = os.path.dirname(os.path.dirname(os.path.abspath(__file__)))
 props = [json.loads(l) for l in open(os.path.join(ROOT, "properties.jsonl"))]
 MC = "model_checking"
 CLAIMED = {
+ "C08": dict(spec="Multiproc.tla + MultiprocTrace.tla", design="4/C08",
+   text="TLC checks Multiproc.tla (one action per queue put/get, event wait, join and local decision of Multiprocessor.filter: loader, loader callback, workers incl. retirement and restart, per-worker callbacks, consumer incl. early abandon) exhaustively over a grid of (n_processes, maxtasksperchild, item count, fault subsets, abandon) chosen in Init: exactly-once, conservation of items, <= Max per worker, one out-poison, raise-iff-fault, and termination of the call under weak fairness. The repository's unmodified Multiprocessor.filter / ProcessLine.run / callbacks then run on a virtual multiprocessing layer under seeded-random and bounded-DFS schedules over the same grid; each execution is a trace (events carry a snapshot of queue lengths, _n_procs, #exceptions, stop flag) that TLC must accept against MultiprocTrace.tla with every invariant evaluated per state; a schedule where the caller cannot progress is a deterministic hang verdict. A few real spawn runs are judged on schedule-independent observables incl. per-pid handled counts.",
+   note="Trusted: the virtual layer's granularity (one scheduling point per queue operation / wait / join; the callback body is atomic as under the GIL); real OS schedules are sampled, not enumerated; non-zero worker exit codes and Ctrl-C are outside the model.",
+   technique="TLA+ spec model-checked with TLC (safety + liveness); traces of the real code under a virtual scheduler validated by TLC against the trace spec"),
  "C19": dict(spec="Cacher.tla + CacherTrace.tla", design="4/C19",
    text="TLC checks Cacher.tla (one action per critical section / inner-cache operation of ConcurrentCacher) exhaustively for all two-caller programs (quick: 1 op each, thorough: <=2 ops each) plus curated three-caller programs over equal, distinct and colliding keys, memory-like and disk-like: mutual exclusion, no partial serve, single flight, lock-table/_locks agreement, all released, and termination under weak fairness. The real ConcurrentCacher (real MemoryCacher / DiskCacher inside) is then run under a deterministic virtual scheduler (random + bounded-DFS schedules, 2-3 threads, really colliding keys); every execution is a trace that TLC must accept against CacherTrace.tla with all invariants evaluated per state; deadlock is a scheduler verdict. Every byte cut of a real disk entry is enumerated.",
    note="Trusted: the virtual scheduler's granularity (one scheduling point per lock acquisition, sleep, inner-cache operation, body boundary); threads stand for processes (same code path through the injected lock/list).",
